@@ -347,6 +347,46 @@ func ruleC19Filter(c *ctx.Ctx, r *core.Reporter) {
 		iW := strings.LastIndex(t, "return f.Write(result.Code)")
 		r.Check(iM >= 0 && iW > iM, "filter:js-mappings-before-write", c.Pos(wj.Pos()), "the mappings of a JS chunk are registered before the chunk advances the line/column counters")
 	}
+	// every hint (and every mapping of an included JavaScript file) ends up in the map: the default
+	// callbacks add their mapping unconditionally — a mapping dropped as "redundant" leaves the generated
+	// line it belongs to without any position
+	for _, name := range []string{"Filter.defaultGoMappingCallback", "Filter.defaultJSMappingCallback"} {
+		fd := c.FuncDecl(smPkg, name)
+		if fd == nil {
+			r.Undecided("mapping:always-added:"+name, smPkg, name+" not found")
+			continue
+		}
+		top := -1
+		for i, st := range fd.Body.List {
+			if es, ok := st.(*ast.ExprStmt); ok {
+				if call, ok := es.X.(*ast.CallExpr); ok {
+					if sel, ok := call.Fun.(*ast.SelectorExpr); ok && sel.Sel.Name == "AddMapping" {
+						top = i
+					}
+				}
+			}
+		}
+		early := 0
+		if top >= 0 {
+			for _, st := range fd.Body.List[:top] {
+				ast.Inspect(st, func(n ast.Node) bool {
+					switch x := n.(type) {
+					case *ast.FuncLit:
+						return false
+					case *ast.ReturnStmt:
+						early++
+					case *ast.CallExpr:
+						if id, ok := x.Fun.(*ast.Ident); ok && id.Name == "panic" {
+							early++
+						}
+					}
+					return true
+				})
+			}
+		}
+		r.Check(top >= 0 && early == 0, "mapping:always-added:"+name, c.Pos(fd.Pos()), fmt.Sprintf("%s calls AddMapping as an unconditional statement of its body, with no return before it (early exits: %d)", name, early))
+	}
+
 }
 
 var _ = token.NoPos
